@@ -1,6 +1,7 @@
 import Driver.Util
 import HeimdallModel.Spec.Signer
 import HeimdallModel.Model.SignerCache
+import HeimdallModel.Model.SignerTime
 -- @family signer
 /-! Line-protocol family `signer`: jwt finalizers over key store files, token creation, JWKS reads, reloads (C16) -/
 open Lean Heimdall Heimdall.Signer
@@ -26,13 +27,32 @@ def parseKeys (c : Json) : E (Array PrivKey) := do
     res := res.push (← keyOfType (← str kd "t") res.size)
   pure res
 
+/-- the validity periods of the certificates of a case: `"cert_validity": [[cid, notBefore, notAfter], ...]` in
+milliseconds since the start of the case; a certificate that is not listed is valid throughout -/
+def parseCertInfo (c : Json) : E CertInfo := do
+  let mut tab : List (Nat × Validity) := []
+  match fldD c "cert_validity" .null with
+  | .null => pure ()
+  | j =>
+    for row in (← j.getArr?).toList do
+      let r ← row.getArr?
+      let some cid := r[0]? | throw "bad cert_validity row"
+      let some nb := r[1]? | throw "bad cert_validity row"
+      let some na := r[2]? | throw "bad cert_validity row"
+      tab := tab ++ [(← cid.getNat?, ⟨← nb.getInt?, ← na.getInt?⟩)]
+  pure (fun cid => ((tab.find? (fun e => e.1 = cid)).map (·.2)).getD ⟨-1000000000000000, 1000000000000000⟩)
+
+/-- the instant of an operation on the case's clock (milliseconds since its start; 0 in cases without one) -/
+def opNow (op : Json) : Int := Int.ofNat (natD op "at_ms" 0)
+
 /-- a key store file as the generator describes it to the model: `null` = unparsable, else the key blocks in file
-order, each with the chain x509 finds for it and the two x509 verdicts -/
-def parseFile (keys : Array PrivKey) (j : Json) : E File := do
+order, each with the chain x509 finds for it and the two x509 verdicts **apart from the validity periods listed in
+`cert_validity`** (`Model/SignerTime.lean` judges those at the instant of the load) -/
+def parseFile (keys : Array PrivKey) (j : Json) : E TimedFile := do
   match j with
   | .null => pure none
   | _ =>
-    let mut res : List RawEntry := []
+    let mut res : List TimedEntry := []
     for e in (← j.getArr?).toList do
       let k ← nat e "k"
       let some key := keys[k]? | throw "bad key index"
@@ -52,15 +72,15 @@ def optInt (j : Json) (k : String) : E (Option Int) :=
 def optNat (j : Json) (k : String) : E (Option Nat) :=
   if isNull j k then pure none else do pure (some (← nat j k))
 
-def parseHolder (keys : Array PrivKey) (h : Json) : E (Option Holder) := do
+def parseHolder (ci : CertInfo) (keys : Array PrivKey) (h : Json) : E (Option Holder) := do
   let keyID := strD h "key_id" ""
   let name := strD h "name" ""
   let header ← (if isNull h "header" then pure none else do
     let hj ← fld h "header"
     pure (some (← str hj "name", strD hj "scheme" "")))
   let file ← parseFile keys (fldD h "raw" .null)
-  -- `newJWTFinalizer`: decode and validate the configuration, then load the key store
-  match Finalizer.create (← optInt h "ttl_ns") (← optNat h "tpl") header, loadFile keyID file with
+  -- `newJWTFinalizer`: decode and validate the configuration, then load the key store (at the start of the case)
+  match Finalizer.create (← optInt h "ttl_ns") (← optNat h "tpl") header, loadAt ci keyID file 0 with
   | some fin, some st => pure (some ⟨keyID, issuerName name, fin, st⟩)
   | _, _ => pure none
 
@@ -88,9 +108,9 @@ def jwkJson (j : Jwk) : Json :=
 
 def live (hs : Array (Option Holder)) : List Holder := hs.toList.filterMap id
 
-def jwksJson (hs : Array (Option Holder)) : Json :=
+def jwksJson (ci : CertInfo) (now : Int) (hs : Array (Option Holder)) : Json :=
   Json.mkObj [("status", jnat 200), ("ctype", jstr "application/json"),
-    ("keys", jarr ((published ((live hs).map (·.st))).map jwkJson))]
+    ("keys", jarr ((publishedAt ci ((live hs).map (·.st)) now).map jwkJson))]
 
 def cvalJson (ttl : Int) (name : String) : CVal Json → Json
   | .str s => Json.mkObj [("json", jstr s)]
@@ -120,6 +140,21 @@ structure Stats where
   clashes : Nat := 0
   fractionalTtl : Nat := 0
   algs : List String := []
+  -- the clock (`Model/SignerTime.lean`): tokens handed out / key sets read while a certificate of a published key is
+  -- outside its validity period, reloads refused only because a certificate of the file had run out
+  tokensAfterExpiry : Nat := 0
+  jwksAfterExpiry : Nat := 0
+  reloadsRefusedExpired : Nat := 0
+
+/-- some published key carries a certificate that is outside its validity period at `now` -/
+def expiredPublished (ci : CertInfo) (now : Int) (pub : List Jwk) : Bool :=
+  pub.any (fun j => j.certs.any (fun c => !(c.validAt ci now)))
+
+def allValid : CertInfo := fun _ => ⟨-1000000000000000, 1000000000000000⟩
+
+/-- the reload is refused at `now`, and only because of the validity periods -/
+def refusedExpired (ci : CertInfo) (keyID : String) (f : TimedFile) (now : Int) : Bool :=
+  (loadAt ci keyID f now).isNone && (loadAt allValid keyID f now).isSome
 
 /-- the process-wide token cache of a case that has one, and for every stored entry which operation issued it with
 which TTL (bookkeeping of the driver: the model's tokens do not say which call made them) -/
@@ -134,7 +169,7 @@ structure CacheSt where
   crossVariantMisses : Nat := 0
   duringReload : Nat := 0
 
-def signOp (pol : KeyPolicy) (keys : Array PrivKey) (hs : Array (Option Holder)) (op : Json) (idx : Nat) (stats : Stats)
+def signOp (ci : CertInfo) (pol : KeyPolicy) (keys : Array PrivKey) (hs : Array (Option Holder)) (op : Json) (idx : Nat) (stats : Stats)
     (cs : CacheSt) :
     E (Json × Stats × CacheSt × Array (Option Holder)) := do
   let hi ← nat op "h"
@@ -156,14 +191,17 @@ def signOp (pol : KeyPolicy) (keys : Array PrivKey) (hs : Array (Option Holder))
   let file? ← (match inside with
     | .null => pure none
     | _ => do pure (some (← parseFile keys (fldD inside "raw" .null))))
+  let clock := opNow op
   let stAfter := match file? with
     | none => h.st
-    | some f => reload h.keyID h.st f
+    | some f => reloadOn ci h.keyID h.st (clock, f)
   let hs' := hs.set! hi (some { h with st := stAfter })
   let mut stats := stats
   if let some f := file? then
-    stats := if (loadFile h.keyID f).isSome then { stats with reloadsOk := stats.reloadsOk + 1 }
-             else { stats with reloadsFailed := stats.reloadsFailed + 1 }
+    stats := if (loadAt ci h.keyID f clock).isSome then { stats with reloadsOk := stats.reloadsOk + 1 }
+             else { stats with reloadsFailed := stats.reloadsFailed + 1,
+                               reloadsRefusedExpired := stats.reloadsRefusedExpired +
+                                 (if refusedExpired ci h.keyID f clock then 1 else 0) }
   -- `Execute`: without a cache in the context every call signs; with one, lookup / sign / store (`Model/SignerCache.lean`)
   let mut cs := cs
   let mut tok? : Option (Token Json) := none
@@ -179,7 +217,7 @@ def signOp (pol : KeyPolicy) (keys : Array PrivKey) (hs : Array (Option Holder))
     let w : World Json := ⟨[rec_], cs.cache⟩
     let r := match file? with
       | none => executeK pol (fun _ _ _ => custom?) w x
-      | some f => executeDuringK pol (fun _ _ _ => custom?) w x f
+      | some f => executeDuringK pol (fun _ _ _ => custom?) w x (fileAt ci clock f)
     match r with
     | none => tok? := none
     | some (t, .cached, _) =>
@@ -204,7 +242,7 @@ def signOp (pol : KeyPolicy) (keys : Array PrivKey) (hs : Array (Option Holder))
     tok? := custom?.map (fun custom => sign stAfter ⟨sub, h.iss, 0, fin.ttlNs⟩ custom)
   let some tok := tok? | pure (fail.1, { stats with signErrors := stats.signErrors + 1 }, cs, hs')
   let custom := custom?.getD []
-  let pub := published ((live hs').map (·.st))
+  let pub := publishedAt ci ((live hs').map (·.st)) clock
   let named := (custom.filter (fun kv => reserved.contains kv.1)).length
   let vf := verifiesFirst pub tok
   let res := Json.mkObj ([
@@ -213,15 +251,17 @@ def signOp (pol : KeyPolicy) (keys : Array PrivKey) (hs : Array (Option Holder))
     ("claims", claimsJson issuedTtl tok.claims), ("signed_by", jnat tok.signedBy.pub.pid),
     ("verify_first", Json.bool vf), ("verify_any", Json.bool (verifiesAny pub tok))] ++ extra)
   pure (res, { stats with tokens := stats.tokens + 1, reservedNamed := stats.reservedNamed + named,
+                          tokensAfterExpiry := stats.tokensAfterExpiry + (if expiredPublished ci clock pub then 1 else 0),
                           clashes := stats.clashes + (if vf then 0 else 1),
                           fractionalTtl := stats.fractionalTtl + (if fin.ttlNs % 1000000000 = 0 then 0 else 1),
                           algs := if stats.algs.contains tok.alg then stats.algs else stats.algs ++ [tok.alg] }, cs, hs')
 
 def run (c : Json) : E Json := do
   let keys ← parseKeys c
+  let ci ← parseCertInfo c
   let mut hs : Array (Option Holder) := #[]
   for h in ← arr c "holders" do
-    hs := hs.push (← parseHolder keys h)
+    hs := hs.push (← parseHolder ci keys h)
   let created := hs.toList.map (fun h => jstr (if h.isSome then "ok" else "fail"))
   let mut out : List Json := []
   let mut stats : Stats := {}
@@ -237,16 +277,17 @@ def run (c : Json) : E Json := do
     idx := idx + 1
     match ← str op "op" with
     | "sign" =>
-      let (r, s', cs', hs') ← signOp pol keys hs op (idx - 1) stats cs
+      let (r, s', cs', hs') ← signOp ci pol keys hs op (idx - 1) stats cs
       stats := s'
       cs := cs'
       hs := hs'
       out := out ++ [r]
-    | "sleep" => out := out ++ [jstr "slept"]
     | "jwks" =>
       stats := { stats with jwksReads := stats.jwksReads + 1,
-                            publishedKeys := stats.publishedKeys + (published ((live hs).map (·.st))).length }
-      out := out ++ [jwksJson hs]
+                            jwksAfterExpiry := stats.jwksAfterExpiry +
+                              (if expiredPublished ci (opNow op) (publishedAt ci ((live hs).map (·.st)) (opNow op)) then 1 else 0),
+                            publishedKeys := stats.publishedKeys + (publishedAt ci ((live hs).map (·.st)) (opNow op)).length }
+      out := out ++ [jwksJson ci (opNow op) hs]
     | "alg" =>
       -- `Entry.CheckJOSESupport` / `Entry.JOSEAlgorithm` for one key of the case
       let some key := keys[← nat op "k"]? | throw "bad key index"
@@ -257,10 +298,12 @@ def run (c : Json) : E Json := do
       match hs[i]? with
       | some (some h) =>
         let file ← parseFile keys (fldD op "raw" .null)
-        let ok := (loadFile h.keyID file).isSome
+        let ok := (loadAt ci h.keyID file (opNow op)).isSome
         stats := if ok then { stats with reloadsOk := stats.reloadsOk + 1 }
-                 else { stats with reloadsFailed := stats.reloadsFailed + 1 }
-        hs := hs.set! i (some { h with st := reload h.keyID h.st file })
+                 else { stats with reloadsFailed := stats.reloadsFailed + 1,
+                                   reloadsRefusedExpired := stats.reloadsRefusedExpired +
+                                     (if refusedExpired ci h.keyID file (opNow op) then 1 else 0) }
+        hs := hs.set! i (some { h with st := reloadOn ci h.keyID h.st (opNow op, file) })
         out := out ++ [jstr "done"]
       | _ => out := out ++ [jstr "skip"]
     | o => throw s!"unknown op {o}"
@@ -272,6 +315,9 @@ def run (c : Json) : E Json := do
     ("reloads_failed", jnat stats.reloadsFailed), ("jwks_reads", jnat stats.jwksReads),
     ("published_keys", jnat stats.publishedKeys), ("first_match_clashes", jnat stats.clashes),
     ("fractional_ttl_tokens", jnat stats.fractionalTtl), ("algs", jstrs stats.algs),
+    ("tokens_after_certificate_expiry", jnat stats.tokensAfterExpiry),
+    ("jwks_reads_after_certificate_expiry", jnat stats.jwksAfterExpiry),
+    ("reloads_refused_for_expired_certificate", jnat stats.reloadsRefusedExpired),
     ("holders_created", jnat (live hs).length), ("holders_failed", jnat (hs.size - (live hs).length)),
     ("cache_cases", jnat (if cs.on then 1 else 0)), ("cache_hits", jnat cs.hits), ("cache_misses", jnat cs.misses),
     ("cache_stores", jnat cs.stores), ("cache_cross_variant_misses", jnat cs.crossVariantMisses),
